@@ -123,8 +123,8 @@ pub enum Op {
     /// in `slot`. Exactly one caller thread runs at any instant; at every scheduling point (before each
     /// step, inside every lookup when the phrase is tokenised, at the end of every lookup, when a
     /// thread ends) the next thread is chosen by the next byte `c` of `schedule`: 0 = the current
-    /// thread goes on (if it still can), otherwise runnable[(c - 1) % runnable.len()]; an exhausted
-    /// schedule means "lowest runnable". Skipped (and reported as such) when the database type of the
+    /// thread goes on (if it still can), otherwise runnable[(c - 1) % runnable.len()]; the schedule is
+    /// cycled; an empty one means "lowest runnable". Skipped (and reported as such) when the database type of the
     /// tree under test is not `Sync`.
     Threads {
         slot: usize,
